@@ -258,7 +258,11 @@ func main() {
 			}
 		}
 		total, dis, _, _ := c.Counts()
-		writeEvidence(*verif, c, total, dis, len(viol), time.Since(t1).Seconds()+p.LoadS, *tier)
+		var st map[string]any
+		if *tier == "thorough" && *overlay == "" && os.Getenv("XVC_NO_SELFTEST") == "" {
+			st = selfTest(*verif, *repo, id)
+		}
+		writeEvidence(*verif, c, total, dis, len(viol), time.Since(t1).Seconds()+p.LoadS, *tier, st)
 		if len(viol) > 0 {
 			exit = 1
 			path := filepath.Join(*verif, "out", id+".violations.json")
@@ -297,7 +301,7 @@ func seed() int {
 	return n
 }
 
-func writeEvidence(verif string, c *q.Ctx, total, dis, nviol int, wall float64, tier string) {
+func writeEvidence(verif string, c *q.Ctx, total, dis, nviol int, wall float64, tier string, selftest map[string]any) {
 	byRule := map[string]int{}
 	distinct := map[string]bool{}
 	var samples []any
@@ -348,6 +352,9 @@ func writeEvidence(verif string, c *q.Ctx, total, dis, nviol int, wall float64, 
 			"trusted_base":         []string{"go/types type checker", "golang.org/x/tools v0.29.0 go/packages + go/ssa construction and dominators", "the frozen rule tables in xvc/rules (each line confirmed by reading the anchor)", "library axioms listed in assumptions"},
 			"notes":                c.Notes,
 		},
+	}
+	if selftest != nil {
+		ev["coverage"].(map[string]any)["selftest"] = selftest
 	}
 	data, _ := json.MarshalIndent(ev, "", " ")
 	os.MkdirAll(filepath.Join(verif, "evidence"), 0o755)
